@@ -284,7 +284,10 @@ def display_of(it, ty, r):
     if ty == 'char': return [v]
     if ty in INT_RANGE or ty == 'bool': return disp_int(it, v)
     if ty == 'f64':
-        if isinstance(v, F64Text): return list(v.chars)
+        if isinstance(v, F64Text):
+            if not hasattr(it, '_f64_printed'): it._f64_printed = []
+            it._f64_printed = [x for x in it._f64_printed[-7:] if x is not v] + [v]
+            return list(v.chars)
         if isinstance(v, float): return [ord(c) for c in fmt_f64(v)]
         raise Unsupported('Display of symbolic f64')
     key = None
@@ -808,6 +811,9 @@ class OpaqueF64:
 @model(r'core::str::<impl str>::parse::<f64>')
 def m_parse_f64(it, s):
     cs = deref_all(s).chars
+    for v in reversed(getattr(it, '_f64_printed', [])):
+        # text that is, character for character, what an F64Text was printed as parses back to that very number
+        if len(v.chars) == len(cs) and all((a is b) or (isinstance(a, int) and isinstance(b, int) and a == b) or (is_sym(a) and is_sym(b) and a.eq(b)) for a, b in zip(v.chars, cs)): return OK(v)
     if all(isinstance(c, int) for c in cs):
         try: return OK(float(''.join(map(chr, cs)).replace('infinity', 'inf'))) if f64_syntax_ok(it, cs) else ERR('ParseFloatError')
         except ValueError: return ERR('ParseFloatError')
